@@ -89,6 +89,7 @@ func entriesFor(alpha string) []*Entry {
 var extraLen = map[string]int{
 	"C01/expr": 1,
 	"C03/expr": 1, "C03/query": 1,
+	"C05/type": 1, "C10/type": 1,
 }
 
 func tokenSpaces(r *explore.Run, opt explore.Options, allEntries bool, body func(c *explore.Ctx, e *Entry, s string)) {
